@@ -983,4 +983,135 @@ Section Main.
     - rewrite new_mnemonic_is_spec by exact He. exact Es.
     - apply efm_accept_iff. rewrite fields_join by exact P. exact V.
   Qed.
+  (* ---------------------------------------------------------------- strings.TrimSpace before strings.Fields *)
+
+  Definition starter (c : Z) : bool :=
+    is_ascii_space c || (c =? 194) || (c =? 225) || (c =? 226) || (c =? 227).
+
+  Local Ltac b2p E :=
+    repeat (rewrite ?orb_true_iff, ?andb_true_iff, ?Z.eqb_eq, ?Z.leb_le in E).
+
+  Lemma sp2_range c1 c2 : sp2 c1 c2 = true -> c1 = 194 /\ 128 <= c2 < 192.
+  Proof. unfold sp2. intros E. b2p E. lia. Qed.
+  Lemma sp3_range c1 c2 c3 : sp3 c1 c2 c3 = true ->
+    (c1 = 225 \/ c1 = 226 \/ c1 = 227) /\ 128 <= c2 < 192 /\ 128 <= c3 < 192.
+  Proof. unfold sp3. intros E. b2p E. lia. Qed.
+  Lemma ascii_space_range c : is_ascii_space c = true -> 9 <= c <= 32.
+  Proof. unfold is_ascii_space. intros E. b2p E. lia. Qed.
+  Lemma starter_range c : starter c = true -> c <= 32 \/ 192 <= c.
+  Proof.
+    unfold starter. intros E. rewrite !orb_true_iff in E.
+    destruct E as [[[[E|E]|E]|E]|E]; [apply ascii_space_range in E|..]; b2p E; lia.
+  Qed.
+
+  Lemma space_width_le s : (space_width s <= length s)%nat.
+  Proof.
+    unfold space_width. destruct s as [|c1 [|c2 [|c3 r]]]; cbn [length]; try lia.
+    - destruct (is_ascii_space c1); lia.
+    - destruct (is_ascii_space c1); [lia|]. destruct (sp2 c1 c2); lia.
+    - destruct (is_ascii_space c1); [lia|]. destruct (sp2 c1 c2); [lia|]. destruct (sp3 c1 c2 c3); lia.
+  Qed.
+
+  (* a white-space rune appended to a non-empty string does not change what is seen at its head *)
+  Lemma space_width_app x c0 p : x <> [] -> starter c0 = true ->
+    space_width (x ++ c0 :: p) = space_width x.
+  Proof.
+    intros Nx S0. apply starter_range in S0.
+    destruct x as [|c1 [|c2 [|c3 r]]]; [contradiction| | |reflexivity]; cbn [app]; unfold space_width.
+    - destruct (is_ascii_space c1); [reflexivity|].
+      destruct (sp2 c1 c0) eqn:E2; [apply sp2_range in E2; lia|].
+      destruct p as [|c3 p]; [reflexivity|].
+      destruct (sp3 c1 c0 c3) eqn:E3; [apply sp3_range in E3; lia|reflexivity].
+    - destruct (is_ascii_space c1); [reflexivity|]. destruct (sp2 c1 c2); [reflexivity|].
+      destruct (sp3 c1 c2 c0) eqn:E3; [apply sp3_range in E3; lia|reflexivity].
+  Qed.
+
+  Lemma fields_go_drop k : forall t cur, length t = k -> fields_go k cur t = flush cur [].
+  Proof.
+    induction k as [|k IH]; intros t cur Hl; destruct t as [|c t]; try discriminate; [reflexivity|].
+    cbn [fields_go]. apply IH. cbn in Hl. lia.
+  Qed.
+
+  (* p is exactly one white-space rune *)
+  Definition one_space (p : str) : Prop :=
+    exists c0 p', p = c0 :: p' /\ starter c0 = true /\ space_width p = length p.
+
+  Lemma fields_go_app_space p : one_space p -> forall x skip cur, (skip <= length x)%nat ->
+    fields_go skip cur (x ++ p) = fields_go skip cur x.
+  Proof.
+    intros (c0 & p' & -> & S0 & W). induction x as [|c r IH]; intros skip cur Hs.
+    - cbn [length] in Hs. assert (skip = 0)%nat by lia. subst skip.
+      cbn [app]. cbn [fields_go]. rewrite W. cbn [length].
+      rewrite fields_go_drop by reflexivity. reflexivity.
+    - cbn [app]. cbn [fields_go]. destruct skip as [|k].
+      + change (c :: r ++ c0 :: p') with ((c :: r) ++ c0 :: p').
+        rewrite space_width_app by (auto; discriminate).
+        pose proof (space_width_le (c :: r)) as LE. cbn [length] in LE.
+        destruct (space_width (c :: r)) as [|k].
+        * apply IH. lia.
+        * f_equal. apply IH. lia.
+      + apply IH. cbn [length] in Hs. lia.
+  Qed.
+
+  Lemma fields_trim_left s : forall skip, fields_go 0 [] (trim_left_go skip s) = fields_go skip [] s.
+  Proof.
+    induction s as [|c r IH]; intros skip; [destruct skip; reflexivity|].
+    cbn [trim_left_go fields_go]. destruct skip as [|k]; [|apply IH].
+    destruct (space_width (c :: r)) as [|k] eqn:W.
+    - cbn [fields_go]. rewrite W. reflexivity.
+    - rewrite IH. reflexivity.
+  Qed.
+
+  Lemma trim_right_go_drop k : forall a rest, length a = k -> trim_right_go k (a ++ rest) = trim_right_go 0 rest.
+  Proof.
+    induction k as [|k IH]; intros a rest Hl; destruct a as [|c a]; try discriminate; [reflexivity|].
+    cbn [app trim_right_go]. apply IH. cbn in Hl. lia.
+  Qed.
+
+  (* the reversed pattern seen by the right trim is a white-space rune *)
+  Lemma space_width_rev_some t n : space_width_rev t = S n ->
+    exists q rest, t = q ++ rest /\ length q = S n /\ one_space (rev q).
+  Proof.
+    unfold space_width_rev. destruct t as [|c1 r1]; [discriminate|].
+    destruct (is_ascii_space c1) eqn:A1.
+    { intros E. injection E as <-. exists [c1], r1. repeat split.
+      cbn [rev app]. exists c1, []. repeat split. unfold starter. rewrite A1. reflexivity.
+      unfold space_width. rewrite A1. reflexivity. }
+    destruct r1 as [|c2 r2]; [discriminate|].
+    destruct (sp2 c2 c1) eqn:A2.
+    { intros E. injection E as <-. exists [c1; c2], r2. repeat split.
+      cbn [rev app]. exists c2, [c1]. pose proof (sp2_range _ _ A2) as R. repeat split.
+      - unfold starter. destruct R as (-> & _). rewrite orb_true_r. reflexivity.
+      - unfold space_width. destruct (is_ascii_space c2) eqn:B; [apply ascii_space_range in B; lia|].
+        rewrite A2. reflexivity. }
+    destruct r2 as [|c3 r3]; [discriminate|].
+    destruct (sp3 c3 c2 c1) eqn:A3; [|discriminate].
+    intros E. injection E as <-. exists [c1; c2; c3], r3. repeat split.
+    cbn [rev app]. exists c3, [c2; c1]. pose proof (sp3_range _ _ _ A3) as R. repeat split.
+    - unfold starter. destruct R as ([-> | [-> | ->]] & _); rewrite ?orb_true_r; reflexivity.
+    - unfold space_width. destruct (is_ascii_space c3) eqn:B; [apply ascii_space_range in B; lia|].
+      destruct (sp2 c3 c2) eqn:B2; [apply sp2_range in B2; lia|]. rewrite A3. reflexivity.
+  Qed.
+
+  Lemma fields_trim_right_rev n : forall t, (length t <= n)%nat ->
+    fields (rev (trim_right_go 0 t)) = fields (rev t).
+  Proof.
+    induction n as [|n IH]; intros t Hl.
+    - destruct t; [reflexivity|cbn in Hl; lia].
+    - destruct t as [|c r]; [reflexivity|].
+      cbn [trim_right_go]. destruct (space_width_rev (c :: r)) as [|k] eqn:W; [reflexivity|].
+      destruct (space_width_rev_some _ _ W) as (q & rest & E & Lq & P).
+      destruct q as [|c' q']; [discriminate|]. cbn [app] in E. injection E as <- ->.
+      cbn [length] in Lq, Hl. rewrite trim_right_go_drop by lia.
+      rewrite IH by (rewrite app_length in Hl; lia).
+      change (c :: q' ++ rest) with ((c :: q') ++ rest). rewrite rev_app_distr.
+      unfold fields. symmetry. apply fields_go_app_space; [exact P|lia].
+  Qed.
+
+  Lemma fields_trim_space s : fields (trim_space s) = fields s.
+  Proof.
+    unfold trim_space, trim_right_space.
+    rewrite (fields_trim_right_rev (length (rev (trim_left_space s)))) by lia.
+    rewrite rev_involutive. unfold fields, trim_left_space. apply fields_trim_left.
+  Qed.
 End Main.
